@@ -154,8 +154,8 @@ def _mk_encap_known(kind):
 for kind in ("generic-connected", "generic-unconnected", "read", "write", "read-fragmented"):
     REG.add(f"encap-status/{kind}/documented-codes", _mk_encap_known(kind), pre=lambda k, st: 0 <= k < len(ENCAP_CODES) and st in (0, 5), timeout=400, funcs=F,
             desc=f"encapsulation status a symbolic choice of {[hex(x) for x in ENCAP_CODES]}, CIP status 0 or 5, full body and header-only: always falsy with an error text")
-    REG.add(f"encap-status/{kind}/any-large", _mk_encap(kind), pre=lambda est, st: 256 <= est < 2**32 and st == 0, timeout=400, funcs=F,
-            desc="encapsulation status symbolic over 256..2^32-1 with CIP status 0: always falsy with an error text",
+    REG.add(f"encap-status/{kind}/any-large", _mk_encap(kind), pre=lambda est, st: 256 <= est < 2**31 and st == 0, timeout=400, funcs=F,
+            desc="encapsulation status symbolic over 256..2^31-1 with CIP status 0: always falsy with an error text (values with the top bit set: documented-codes obligation)",
             tier="thorough")
 
 
@@ -320,8 +320,12 @@ LEN_NEEDED = {"read": 49, "multi-read": 49, "write": 49, "generic": 49}   # the 
 for op in ("read", "multi-read", "write", "generic"):
     REG.add(f"corrupt/{op}/truncate", _mk_corrupt(op, "trunc"), pre=lambda pos, val: 0 <= pos < 70 and val == 0, timeout=900, funcs=F, weight=2,
             desc=f"{op}: the reply truncated at every position 0..69: only library exceptions or falsy Tags with an error; a reply too short for its status words is never truthy")
-    REG.add(f"corrupt/{op}/one-byte/cip-part", _mk_corrupt(op, "byte"), pre=lambda pos, val: 44 <= pos < 58 and 0 <= val < 256, timeout=1500, funcs=F, weight=3,
-            desc=f"{op}: one byte of the reply at positions 44..57 (sequence count, CIP reply header, first data bytes) replaced by a symbolic value: only library exceptions or Tags",
-            tier="quick" if op == "read" else "thorough")
-    REG.add(f"corrupt/{op}/one-byte/encapsulation-part", _mk_corrupt(op, "byte"), pre=lambda pos, val: 0 <= pos < 44 and 0 <= val < 256, timeout=3000, funcs=F, weight=3,
-            desc=f"{op}: one byte of the encapsulation header / item headers (positions 0..43) replaced by a symbolic value", tier="thorough")
+    for lo, hi in ((44, 48), (48, 52), (52, 58)):
+        REG.add(f"corrupt/{op}/one-byte/cip-part/{lo}-{hi - 1}", _mk_corrupt(op, "byte"), pre=lambda pos, val, lo=lo, hi=hi: lo <= pos < hi and 0 <= val < 256, timeout=1500, funcs=F, weight=3,
+                desc=f"{op}: one byte of the reply at positions {lo}..{hi - 1} (sequence count / CIP reply header / first data bytes) replaced by a symbolic value: only library exceptions or Tags",
+                tier="quick" if op == "read" else "thorough")
+    if op in ("read", "write"):
+        for lo in (0, 12, 24, 34):
+            REG.add(f"corrupt/{op}/one-byte/encapsulation-part/{lo}", _mk_corrupt(op, "byte"), pre=lambda pos, val, lo=lo: lo <= pos < min(lo + 12, 44) and 0 <= val < 256, timeout=1500,
+                    funcs=F, weight=3, tier="thorough",
+                    desc=f"{op}: one byte of the encapsulation header / item headers (positions {lo}..{min(lo + 12, 44) - 1}) replaced by a symbolic value")
